@@ -23,6 +23,9 @@ Theorem C18_edge_dimension : et_dimension Edge = 1.
 Proof. exact edge_dimension. Qed.
 Theorem C18_threshold_is_le : forall dim c, threshold dim c = (dim <=? c).
 Proof. exact threshold_le. Qed.
+Print Assumptions C18_node_count_pos.
+Print Assumptions C18_edge_dimension.
+Print Assumptions C18_threshold_is_le.
 
 (* inside the contract `dual` returns a matrix: no panic at any of the eight sites (20-27) *)
 Theorem C18_dual_total : forall m, wf_mesh m = true -> exists g, dual m = Ok g.
